@@ -59,7 +59,6 @@ class ExperimentEvaluator:
         # only trigger a recompile on code that has changed
         if self._checksum != new_checksum:
             code_holder = {}
-            self._checksum = new_checksum
 
             ast = parse_source(source_code)
             if ast is None:
@@ -79,6 +78,9 @@ class ExperimentEvaluator:
             setattr(
                 self, "run_experiment", code_holder[fn_name]
             )  # initialize the function
+            # remember the checksum only once the new code is installed, so that a
+            # source which failed to compile is not mistaken for the current one
+            self._checksum = new_checksum
 
     def run_experiment(self, **kwargs):
         raise RuntimeError("Code was not loaded")
